@@ -118,3 +118,22 @@ Theorem c20_stop_that_gives_up_refuted :
   let h' := [EStartCall; EKB; EKE true; EStartRet true; EKB; EStopCall; EKE true; EKB; EKE true; EStopRet; EWaitRet; EStartCall] in
   irun false i0 h' <> None.
 Proof. exact stop_that_gives_up_refuted. Qed.
+
+(* The flag around the END of a loop (Winddown.v: the goroutine Start spawns around the loop winds
+   down some time after the loop has returned; a Start may come in between).  With the flag cleared
+   once per ended loop — by the loop for a stop, by its goroutine for a failed keep-alive — there
+   are never two loops, under every interleaving of starts, stops, failing keep-alives and
+   wind-downs, and the agent can be started again exactly when nothing runs.  A goroutine that
+   clears the flag again for a stopped loop lets a second Start through (D30); the source as it
+   is does not do that (regenerated fact). *)
+From VP Require Import Winddown.
+Theorem c20_one_loop_through_winddown : forall ops,
+  let s := wrun false wst0 ops in (w_loops s <= 1)%nat /\ (w_started s = false <-> (w_loops s + w_wind_fail s = 0)%nat).
+Proof. exact one_loop_through_winddown. Qed.
+Print Assumptions c20_one_loop_through_winddown.
+Theorem c20_double_clear_refuted :
+  w_loops (wrun true wst0 [WStart; WStop; WStart; WWoundStop; WStart]) = 2%nat /\
+  w_loops (wrun false wst0 [WStart; WStop; WStart; WWoundStop; WStart]) = 1%nat.
+Proof. exact double_clear_refuted. Qed.
+Theorem c20_stopped_loop_clears_flag_once : agent_stopped_loop_clears_flag_twice = false.
+Proof. reflexivity. Qed.
